@@ -2,7 +2,7 @@
 import glob, os
 import gens_core, gens_codec, gens_text, gens_cli, gens_concur
 
-V = '/verif'
+V = os.path.dirname(os.path.dirname(os.path.abspath(__file__)))
 
 BASE_TRUSTED = [
     'Coq 8.16.1 kernel (coqc; vm_compute used in finite sweeps and examples; no native_compute)',
@@ -32,7 +32,7 @@ def ignore_missing_side(x, y):
 
 
 def entry(gen, quick, thorough, rule, modelled='', **kw):
-    d = {'gen': gen, 'cases': (quick, thorough), 'rule': rule, 'modelled': modelled}
+    d = {'gen': gen, 'cases': (quick, thorough), 'rule': rule, 'modelled': modelled, 'ignore': ignore_missing_side}
     d.update(kw)
     return d
 
